@@ -40,6 +40,24 @@ func main() {
 		code := cmdReplay(os.Args[2:])
 		cleanupScratch()
 		os.Exit(code)
+	case "frame":
+		p, err := loadProgram("/repo", nil)
+		if err != nil {
+			fmt.Fprintln(os.Stderr, err)
+			os.Exit(2)
+		}
+		n := 0
+		for _, s := range p.frameCheckGroups(nil) {
+			fmt.Printf("%-45s functions=%d writes=%d violations=%d\n", s.Entry, s.Functions, s.Writes, len(s.Viol))
+			for _, v := range s.Viol {
+				fmt.Printf("    %s  %s  [%s]\n", v.Name, v.Desc, v.Pos)
+				n++
+			}
+		}
+		if n > 0 {
+			os.Exit(1)
+		}
+		os.Exit(0)
 	case "selftest":
 		code := cmdSelftest(os.Args[2:])
 		cleanupScratch()
